@@ -651,6 +651,33 @@ def main():
                     evs.append(None)
             res = add_sock_case(em, p, evs, (1, 0, 1, True), len(items) + len(evs) + 3, "segments interleaved with timeouts / OSError")
         em.samples = [{"segmentations": "all-at-once, byte-wise, random cuts, with timeouts"}]
+
+    elif prop == "C12":
+        # the reader over a CHUNKED socket: a mixed stream cut into chunks of random sizes, sent in random segments
+        for it in range(40 if thorough else 12):
+            data, items = mixed_stream(tabs, rng, rng.randrange(2, 8), ["frame", "frame", "zero", "nmea", "ubx", "noise", "damaged", "repeat"], None)
+            if len(data) > 4000:
+                continue
+            want = [(r[1], None if r[2] is None else r[2].payload) for h, r in run_reader(p, FStream(data), (1, 0, 1, True), len(items) + 2)[0] if r[0] == "Y"]
+            body = b""
+            i = 0
+            while i < len(data):
+                j = min(len(data), i + rng.choice([1, 2, 7, 19, 64, 300]))
+                body += (rng.choice(["%x", "%X", "0%x"]) % (j - i)).encode() + b"\r\n" + data[i:j] + b"\r\n"
+                i = j
+            if rng.random() < 0.7:
+                body += b"0\r\n\r\n"
+            for rep in range(3 if thorough else 2):
+                n = len(body)
+                cuts = sorted(rng.sample(range(1, n), min(n - 1, rng.choice([0, 1, 3, 10, 40])))) if n > 1 else []
+                segs = [body[a_:b_] for a_, b_ in zip([0] + cuts, cuts + [n])]
+                res = add_sock_case(em, p, segs, (1, 0, 1, True), len(items) + 3, "mixed stream in a chunked body of %d bytes, %d segments" % (n, len(segs)), chunked=True)
+                em.direct_evaluations += 1
+                got = [(r[1], None if r[2] is None else r[2].payload) for h, r in res if r[0] == "Y"]
+                if got != want:
+                    em.violation("C12: reader over a chunked socket returns different messages than over the decoded bytes",
+                                 {"recv_events": [x.hex() for x in segs], "chunked": True, "decoded": data.hex()}, {"returned": len(got), "expected": len(want)})
+        em.samples = [{"note": "mixed streams wrapped in chunked transfer encoding with random chunk sizes and receive boundaries"}]
     em.finish()
 
 
